@@ -22,6 +22,45 @@ pub struct C06 {}
 
 /// Returns (mutated bytes, description) - one number token moved to a limit.
 pub fn limit_mutation(rng: &mut Rng, pk: PK, doc: &Doc) -> Option<(Vec<u8>, String)> {
+    // binary AIGER: re-encode one delta as an over-long / maximal-length 7-bit code
+    let bins: Vec<usize> = doc
+        .toks
+        .iter()
+        .enumerate()
+        .filter(|(_, t)| t.role == Role::Binary)
+        .map(|(i, _)| i)
+        .collect();
+    if !bins.is_empty() && rng.chance(1, 3) {
+        let t = &doc.toks[bins[rng.usize(bins.len())]];
+        let old = &doc.bytes[t.off..t.off + t.len];
+        // the 7-bit groups of the original value, padded to `len` groups, last group `top`
+        let mut groups: Vec<u8> = old.iter().map(|b| b & 0x7f).collect();
+        let len = *rng.pick(&[2usize, 9, 10, 10, 10, 11]);
+        let top = *rng.pick(&[0u8, 1, 2, 3, 0x40, 0x7f]);
+        if groups.len() >= len {
+            groups.truncate(len - 1);
+        }
+        while groups.len() < len - 1 {
+            groups.push(0);
+        }
+        groups.push(top);
+        let n = groups.len();
+        let new: Vec<u8> = groups
+            .iter()
+            .enumerate()
+            .map(|(i, g)| if i + 1 < n { g | 0x80 } else { *g })
+            .collect();
+        let mut out = doc.bytes[..t.off].to_vec();
+        out.extend_from_slice(&new);
+        out.extend_from_slice(&doc.bytes[t.off + t.len..]);
+        return Some((
+            out,
+            format!(
+                "binary {} at offset {} re-encoded in {} groups with top group {:#x}",
+                t.what, t.off, len, top
+            ),
+        ));
+    }
     let nums: Vec<usize> = doc
         .toks
         .iter()
